@@ -189,7 +189,7 @@ class DeployEngine(object):
                            ch.sysram.largest_free())
         common = collections.Counter(res.values()).most_common(1)
         base = common[0][0] if common else (18, 1000, 1000)
-        exc = {xy: {par.Cores: r[0], par.SDRAM: r[1], par.SRAM: r[2]}
+        exc = {xy: {self.R.Cores: r[0], self.R.SDRAM: r[1], self.R.SRAM: r[2]}
                for xy, r in res.items() if r != base}
         dead_chips = {xy for xy in m.chips if not self.alive(xy)}
         dead_links = set()
@@ -199,10 +199,10 @@ class DeployEngine(object):
                 if l not in up:
                     dead_links.add((xy[0], xy[1], Links(l)))
         machine = par.Machine(m.width, m.height,
-                              {par.Cores: base[0], par.SDRAM: base[1],
-                               par.SRAM: base[2]}, exc, dead_chips,
+                              {self.R.Cores: base[0], self.R.SDRAM: base[1],
+                               self.R.SRAM: base[2]}, exc, dead_chips,
                               dead_links)
-        constraints = [cons.ReserveResourceConstraint(par.Cores,
+        constraints = [cons.ReserveResourceConstraint(self.R.Cores,
                                                       slice(0, 1))]
         for xy, ch in sorted(m.chips.items()):
             if not self.alive(xy):
@@ -211,7 +211,7 @@ class DeployEngine(object):
                     if p and cr.state != ST_IDLE]
             for p in busy:
                 constraints.append(cons.ReserveResourceConstraint(
-                    par.Cores, slice(p, p + 1), xy))
+                    self.R.Cores, slice(p, p + 1), xy))
         return machine, constraints
 
     # ------------------------------------------------------------------
@@ -249,7 +249,7 @@ class DeployEngine(object):
         # route endpoints for device vertices
         for v in vs:
             res = g.vertices_resources[v]
-            if res.get(self.par.Cores, 1) == 0 and t.draw(2) and \
+            if res.get(self.R.Cores, 1) == 0 and t.draw(2) and \
                     v not in group_of:
                 # a chip with a link that leads nowhere
                 cands = [(x, y, l) for (x, y) in chips for l in range(6)
@@ -279,7 +279,7 @@ class DeployEngine(object):
             out.append(cons.LocationConstraint(v, xy))
             g.located[v] = xy
         if t.draw(3) == 0:
-            out.append(cons.AlignResourceConstraint(self.par.SDRAM, 4))
+            out.append(cons.AlignResourceConstraint(self.R.SDRAM, 4))
         return out
 
     def truth_link_leads_somewhere(self, x, y, l):
@@ -334,6 +334,17 @@ class DeployEngine(object):
             "rig.place_and_route.routing_tree").RoutingTree
         parutils = rig_module("rig.place_and_route.utils")
         ner = rig_module("rig.place_and_route.route.ner")
+        # resource identifiers: rig's, or the caller's own
+        R = self.R = prgen.Resources(par, not self.c03 and t.draw(4) == 0
+                                     or self.c03 and t.draw(3) == 0)
+        if R.custom:
+            w.probe("custom_resource_identifiers")
+        # (explicitly naming rig's own identifiers is the same call)
+        explicit = R.custom or t.draw(3) == 0
+        rk3 = {"core_resource": R.Cores, "sdram_resource": R.SDRAM,
+               "sram_resource": R.SRAM} if explicit else {}
+        rk2 = {k: v for k, v in rk3.items() if k != "sram_resource"}
+        rk1 = {k: v for k, v in rk3.items() if k == "core_resource"}
         self.build_truth()
         m = self.m
         g = prgen.Graph(t)
@@ -356,13 +367,13 @@ class DeployEngine(object):
             n_ops = t.op_count(0, 20)
             for _ in range(n_ops):
                 t.next_segment()
-                prgen.add_net(t, g, par)
+                prgen.add_net(t, g, R)
             t.begin_tail()
             # a few more unconnected vertices
             for _ in range(t.draw_small(6, 0.5)):
-                prgen.new_vertex(t, g, par)
+                prgen.new_vertex(t, g, R)
             for v, res in g.vertices_resources.items():
-                if res.get(par.Cores, 1) == 0:
+                if res.get(self.R.Cores, 1) == 0:
                     w.probe("zero_core_vertex")
             # -- machine description -------------------------------------
             sys_info = None
@@ -379,8 +390,8 @@ class DeployEngine(object):
                         w.violate("L", "probe failed with no fault active",
                                   kind="clean-failure")
                     return {"stage": "probe-failed"}
-                machine = parutils.build_machine(sys_info)
-                base_cons = parutils.build_core_constraints(sys_info)
+                machine = parutils.build_machine(sys_info, **rk3)
+                base_cons = parutils.build_core_constraints(sys_info, **rk1)
             else:
                 w.probe("direct_machine")
                 machine, base_cons = self.machine_from_truth()
@@ -422,7 +433,7 @@ class DeployEngine(object):
                     g.vertices_resources, apps, g.nets, g.net_keys, sys_info,
                     app_cons, place=place_fn, place_kwargs=place_kwargs,
                     route_kwargs={"radius": radius},
-                    minimise_tables_methods=methods[0])
+                    minimise_tables_methods=methods[0], **rk3)
                 if st == "exc":
                     return self.stage_failed("place_and_route_wrapper", val,
                                              mv)
@@ -435,12 +446,12 @@ class DeployEngine(object):
                     g.nets, g.net_keys, machine, base_cons + app_cons,
                     reserve_monitor=False,
                     place=place_fn, place_kwargs=place_kwargs,
-                    route_kwargs={"radius": radius})
+                    route_kwargs={"radius": radius}, **rk2)
                 if st == "exc":
                     return self.stage_failed("wrapper", val, mv)
                 placements, allocations, app_map, tables = val
                 constraints = base_cons + app_cons + [
-                    self.cons.AlignResourceConstraint(par.SDRAM, 4)]
+                    self.cons.AlignResourceConstraint(self.R.SDRAM, 4)]
                 routes = None
             else:
                 if not self.c03:
@@ -472,7 +483,7 @@ class DeployEngine(object):
                     return {"stage": "bad-allocation"}
                 st, routes = rigcall(
                     w, allowed, ner.route, g.vertices_resources, g.nets,
-                    machine, constraints, placements, allocations, par.Cores,
+                    machine, constraints, placements, allocations, self.R.Cores,
                     radius)
                 if st == "exc":
                     return self.stage_failed("route", routes, mv)
@@ -504,7 +515,7 @@ class DeployEngine(object):
                         st, routes = rigcall(
                             w, allowed, ner.route, g.vertices_resources,
                             g.nets, machine, constraints, placements,
-                            allocations, par.Cores, radius)
+                            allocations, self.R.Cores, radius)
                         if st == "exc":
                             return self.stage_failed("route", routes, mv)
                         self.check_routes(g, routes, mv, placements,
@@ -552,7 +563,7 @@ class DeployEngine(object):
                 if probs:
                     self.violate_stage("AL", "allocate", probs)
             for v in g.vertices_resources:
-                if g.vertices_resources[v].get(par.Cores, 0) > 1:
+                if g.vertices_resources[v].get(self.R.Cores, 0) > 1:
                     w.probe("multi_core_sink")
             # -- load over the faulty network ---------------------------
             w.trace.ev("op", "load")
@@ -611,9 +622,9 @@ class DeployEngine(object):
         g2 = prgen.Graph(t2)
         g2.dense_bits = dense_bits
         for _ in range(2 + t2.draw(10)):
-            prgen.add_net(t2, g2, par, max_fanout=5)
+            prgen.add_net(t2, g2, par, max_fanout=5)   # (rig's identifiers)
         m2 = par.Machine(1 + t2.draw(4), 1 + t2.draw(4))
-        cons2 = [self.cons.ReserveResourceConstraint(par.Cores, slice(0, 1))]
+        cons2 = [self.cons.ReserveResourceConstraint(self.par.Cores, slice(0, 1))]
         hil = rig_module("rig.place_and_route.place.hilbert")
         alloc = rig_module("rig.place_and_route.allocate.greedy")
         ner = rig_module("rig.place_and_route.route.ner")
@@ -704,7 +715,7 @@ class DeployEngine(object):
             root = routes[net]
             probs = prcheck.check_tree(self.RoutingTree, net, root, mv,
                                        placements, allocations, g.endpoints,
-                                       self.par.Cores)
+                                       self.R.Cores)
             if probs:
                 kind, msg = probs[0]
                 w.violate("TREE", "%r: %s" % (net, msg), kind=kind)
@@ -745,7 +756,7 @@ class DeployEngine(object):
                     if sink in g.endpoints:
                         want_exits[(xy[0], xy[1], int(g.endpoints[sink]))] = 1
                         continue
-                    sl = allocations.get(sink, {}).get(par.Cores)
+                    sl = allocations.get(sink, {}).get(self.R.Cores)
                     if sl is None or sl.stop == sl.start:
                         silent.add(xy)
                         continue
